@@ -34,7 +34,8 @@ def prepare_matrix(work, tag, families=None, cfg=None, only=None):
     """Writes the matrix sources, compiles them with the real compiler under cfg.
     Returns list of (family, src_path, dump_path, [Entry])."""
     import matrix
-    cfg = cfg if cfg is not None else {}
+    cfg = dict(cfg if cfg is not None else {})
+    cfg["allow_warnings"] = True
     fams = matrix.all_entries(families)
     jobs = []
     for fam, entries in fams.items():
@@ -61,6 +62,38 @@ def prepare_matrix(work, tag, families=None, cfg=None, only=None):
             sys.stderr.write(f"compilation of {j[1]} failed:\n{err[-3000:]}\n")
             raise SystemExit(2)
     return jobs
+
+
+def prepare_corpus(work, tag, cfg, only=None):
+    """Compiles every corpus case with the real compiler; returns jobs like prepare_matrix, with
+    one pseudo entry per function of the case's own crate."""
+    import corpus
+    cfg = dict(cfg or {})
+    cfg["allow_warnings"] = True
+    cases = corpus.harvest()
+    if only:
+        cases = [c for c in cases if any(o in c.cid for o in only)]
+    items = []
+    for c in cases:
+        src = os.path.join(work, c.cid + ".cairo")
+        with open(src, "w") as f:
+            f.write(c.source)
+        items.append((c, src, os.path.join(work, f"{c.cid}.{tag}.json")))
+    from concurrent.futures import ThreadPoolExecutor
+    with ThreadPoolExecutor(max_workers=common.NPROC) as ex:
+        res = list(ex.map(lambda it: common.dump(it[1], cfg, it[2]), items))
+    jobs, skipped = [], []
+    for (c, src, dump_path), (ok, err) in zip(items, res):
+        if not ok:
+            skipped.append({"case": c.origin, "reason": "does not compile stand-alone: "
+                            + (err.strip().split("\n")[0][:160] if err.strip() else "")})
+            continue
+        prog = workers.load_prog(dump_path)
+        entries = [corpus.FuncEntry(f["name"]) for f in prog["funcs"]
+                   if f["name"].startswith(c.cid + "::")]
+        if entries:
+            jobs.append(("corpus", src, dump_path, entries))
+    return jobs, skipped
 
 
 def run_pool(worker, tasks, log_path):
@@ -162,7 +195,7 @@ def known(prop, name, kf):
 
 # ------------------------------------------------------------------------------ generic driver
 def generic(args, prop, worker, cfgs, confirm, level="model_checking", extra_task=None,
-            families=None, static_leg=None):
+            families=None, static_leg=None, corpus_ok=False):
     """cfgs: list of (tag, cfg dict). confirm(rp, cand, fcost, result) -> (bool, replay payload)."""
     tier = args.tier
     t0 = time.time()
@@ -170,9 +203,18 @@ def generic(args, prop, worker, cfgs, confirm, level="model_checking", extra_tas
     build_s = common.build_tool()
     tasks, meta = [], {}
     static_notes = []
+    corpus_skipped = []
     for tag, cfg in cfgs:
-        jobs = prepare_matrix(work, tag, families=families or args.families, cfg=cfg,
-                              only=args.only)
+        fams_sel = families or args.families
+        use_corpus = corpus_ok and (fams_sel is None or "corpus" in fams_sel)
+        if fams_sel is not None:
+            fams_sel = [x for x in fams_sel if x != "corpus"]
+        jobs = [] if fams_sel == [] else prepare_matrix(work, tag, families=fams_sel, cfg=cfg,
+                                                        only=args.only)
+        if use_corpus:
+            cj, skipped = prepare_corpus(work, tag, cfg, only=args.only)
+            jobs += cj
+            corpus_skipped += skipped
         for fam, src, dump_path, entries in jobs:
             if static_leg:
                 static_notes += static_leg(dump_path)
@@ -181,12 +223,15 @@ def generic(args, prop, worker, cfgs, confirm, level="model_checking", extra_tas
                 if extra_task:
                     t = t + extra_task(fam, e)
                 tasks.append(t)
-                meta[(dump_path, e.name)] = (src, cfg, tag)
+                meta[(dump_path, e.name)] = (src, dict(cfg, allow_warnings=True), tag)
+                if fam == "corpus":
+                    continue
     results = run_pool(worker, tasks, os.path.join(work, "progress.log"))
     reps = Replayers()
     kf = common.known_findings()
     violations, faults, errors = [], list(static_notes), []
     validated = 0
+    not_replayable = 0
     progs = {}
     for r in results:
         if r["status"] == "error":
@@ -210,6 +255,10 @@ def generic(args, prop, worker, cfgs, confirm, level="model_checking", extra_tas
             ok, msg, resp = validate_witness(rp, w, fcost)
             if ok:
                 validated += 1
+            elif resp.get("kind") == "panic" and "results_data.len()" in str(resp.get("error")):
+                # SierraCasmRunner cannot run functions with several user-visible return values
+                # (ref parameters); such witnesses cannot be replayed through its API
+                not_replayable += 1
             elif prop == "C02" and resp.get("kind") in ("vm", "panic") \
                     and not w.get("overrides"):
                 payload = {"property": prop, "source": src, "config": cfg, "witness": w,
@@ -253,6 +302,7 @@ def generic(args, prop, worker, cfgs, confirm, level="model_checking", extra_tas
         "states": sum(r["steps"] + r["paths"] for r in ok) or 1,
         "transitions": sum(r["steps"] for r in ok) or 1,
         "traces_validated_against_impl": validated,
+        "witnesses_not_replayable_by_runner_api": not_replayable,
         "samples": samples or [{"note": "no function analysed"}],
         "functions_encoded": len(ok),
         "configurations": [t for t, _ in cfgs],
@@ -264,10 +314,14 @@ def generic(args, prop, worker, cfgs, confirm, level="model_checking", extra_tas
         "solver_cpu_s": round(sum(r.get("secs", 0) for r in ok), 1),
         "tool_build_s": round(build_s, 1),
         "machinery_faults": faults,
+        "corpus_cases_skipped": corpus_skipped,
         "exhaustive": False,
         "bounds": f"see assumptions; per-query solver cap {tp['query_ms']} ms, per-function "
                   f"budget {tp['func_budget_s']} s",
     }
+    if level == "translation_validation":
+        cov["programs"] = len(ok)
+        cov["disagreements_checked"] = cov["queries"]
     for extra in ("pins", "call_instances", "ret_paths"):
         if any(extra in r for r in ok):
             cov[extra] = sum(r.get(extra, 0) for r in ok)
@@ -381,21 +435,156 @@ GAS_CFGS_FULL = GAS_CFGS_QUICK + [
 
 
 def run_c03(args):
-    return generic(args, "C03", workers.c03_worker, [("default", {})], confirm_c03)
+    return generic(args, "C03", workers.c03_worker, [("default", {})], confirm_c03,
+                   corpus_ok=True)
 
 
 def run_c02(args):
-    return generic(args, "C02", workers.c02_worker, [("default", {})], confirm_c02)
+    return generic(args, "C02", workers.c02_worker, [("default", {})], confirm_c02,
+                   corpus_ok=True)
 
 
 def run_c04(args):
     cfgs = GAS_CFGS_FULL if args.tier == "thorough" else GAS_CFGS_QUICK
-    return generic(args, "C04", workers.c04_worker, cfgs, confirm_c04)
+    return generic(args, "C04", workers.c04_worker, cfgs, confirm_c04, corpus_ok=True)
 
 
 def run_c17(args):
     cfgs = GAS_CFGS_FULL if args.tier == "thorough" else GAS_CFGS_QUICK
-    return generic(args, "C17", workers.c17_worker, cfgs, confirm_c17, static_leg=static_ranges)
+    return generic(args, "C17", workers.c17_worker, cfgs, confirm_c17, static_leg=static_ranges,
+                   corpus_ok=True)
+
+
+def run_c01(args):
+    """Generated programs (and the plumbing family) against the reference semantics."""
+    n = os.environ.get("VERIF_GEN_PROGRAMS") or ("400" if args.tier == "thorough" else "40")
+    os.environ["VERIF_GEN_PROGRAMS"] = n
+    os.environ["VERIF_SEED"] = str(args.seed)
+    return generic(args, "C01", workers.c06_worker, [("default", {"gas": False})], confirm_c06,
+                   level="translation_validation", families=["gen", "plumb"],
+                   extra_task=lambda fam, e: (fam, 0))
+
+
+C05_VARIANTS_QUICK = [
+    ("default", {}),
+    ("inline-avoid", {"inlining": "avoid"}),
+    ("inline-1000", {"inlining": 1000}),
+    ("no-const-folding", {"skip_const_folding": True}),
+    ("match-threshold-0", {"numeric_match_threshold": 0}),
+]
+C05_VARIANTS_FULL = C05_VARIANTS_QUICK + [
+    ("inline-0", {"inlining": 0}), ("inline-1", {"inlining": 1}), ("inline-50", {"inlining": 50}),
+    ("match-threshold-2", {"numeric_match_threshold": 2}),
+    ("match-threshold-100", {"numeric_match_threshold": 100}),
+    ("avoid+nofold", {"inlining": "avoid", "skip_const_folding": True}),
+    ("inline-1000+nofold+thr0", {"inlining": 1000, "skip_const_folding": True,
+                                 "numeric_match_threshold": 0}),
+    ("lp-metadata", {"linear_gas_solver": False, "linear_ap_change_solver": False}),
+]
+
+
+def run_c05(args):
+    tier = args.tier
+    t0 = time.time()
+    n = os.environ.get("VERIF_GEN_PROGRAMS") or ("200" if tier == "thorough" else "20")
+    os.environ["VERIF_GEN_PROGRAMS"] = n
+    os.environ["VERIF_SEED"] = str(args.seed)
+    work = common.workdir("C05")
+    build_s = common.build_tool()
+    fams = args.families or ["gen", "plumb"]
+    # compiled the way `cairo-run` does without --available-gas (no gas paths)
+    base_cfg = {"optimizations": "disabled", "gas": False}
+    variants = C05_VARIANTS_FULL if tier == "thorough" else C05_VARIANTS_QUICK
+    variants = [(t, dict(c, gas=False)) for t, c in variants]
+    base_jobs = prepare_matrix(work, "base", families=fams, cfg=base_cfg, only=args.only)
+    var_jobs = {tag: prepare_matrix(work, tag, families=fams, cfg=cfg, only=args.only)
+                for tag, cfg in variants}
+    cfg_of = dict(variants)
+    tasks, meta = [], {}
+    for k, (fam, src, dump_path, entries) in enumerate(base_jobs):
+        vd = [(tag, var_jobs[tag][k][2]) for tag, _ in variants]
+        for e in entries:
+            tasks.append((dump_path, e.name, tier, vd))
+            meta[(dump_path, e.name)] = src
+    results = run_pool(workers.c05_worker, tasks, os.path.join(work, "progress.log"))
+    reps = Replayers()
+    kf = common.known_findings()
+    violations, faults, errors, validated = [], [], [], 0
+    for r in results:
+        if r["status"] == "error":
+            errors.append(r)
+            sys.stderr.write(f"ERROR in {r['name']}:\n{r['error']}\n")
+            continue
+        if r["status"] != "ok":
+            continue
+        src = meta[(r["dump"], r["name"])]
+        for w in r["witnesses"][:(30 if tier == "thorough" else 10)]:
+            cfg = dict(cfg_of[w["variant"]], allow_warnings=True)
+            ok, msg, resp = validate_witness(reps.get(src, cfg), w, None)
+            if ok:
+                validated += 1
+            else:
+                faults.append(f"{r['name']}[{w['variant']}]: model/VM divergence on {w['args']}: "
+                              f"{msg}")
+        for c in r["candidates"]:
+            rb = reps.get(src, dict(base_cfg, allow_warnings=True))
+            rv = reps.get(src, dict(cfg_of[c["variant"]], allow_warnings=True))
+            runs = {"base_honest": rb.run(c["func"], c["args"]),
+                    "variant_honest": rv.run(c["func"], c["args"]),
+                    "base_forced": rb.run(c["func"], c["args"], overrides=c["overrides_a"]),
+                    "variant_forced": rv.run(c["func"], c["args"], overrides=c["overrides_b"])}
+
+            def val(x):
+                return json.dumps(x["value"], sort_keys=True) if x.get("ok") else None
+            bvals = {val(runs["base_honest"]), val(runs["base_forced"])} - {None}
+            vvals = {val(runs["variant_honest"]), val(runs["variant_forced"])} - {None}
+            if bvals and vvals and bvals != vvals:
+                payload = {"property": "C05", "source": src, "base_config": base_cfg,
+                           "variant_config": cfg_of[c["variant"]], "candidate": c, "runs": runs}
+                if known("C05", r["name"], kf):
+                    print(f"KNOWN-FINDING: property=C05 {r['name']} {c['why']}")
+                else:
+                    violations.append((r["name"], save_replay("C05", r["name"], payload)))
+            else:
+                faults.append(f"{r['name']}: solver model did not reproduce: {c['query']}")
+    reps.close()
+    ok = [r for r in results if r["status"] == "ok"]
+    outside = [r for r in results if r["status"] == "outside"]
+    undec = [u for r in ok for u in r["undecided"]]
+    samples = [{"function": r["name"], "paths_total": r["paths"], "path_pairs": r["pairs"],
+                "witness_args": (r["witnesses"][0]["args"] if r["witnesses"] else None)}
+               for r in (ok[:3] + ok[-2:])]
+    tp = workers.tier_params(tier)
+    cov = {
+        "programs": len(ok) * len(variants) or 1,
+        "disagreements_checked": sum(r["queries"] for r in ok),
+        "samples": samples or [{"note": "nothing analysed"}],
+        "functions": len(ok), "configurations": ["optimizations-disabled (baseline)"] +
+        [t for t, _ in variants],
+        "queries_discharged": sum(r["discharged"] for r in ok),
+        "queries_undecided": undec,
+        "functions_outside_bounds": [{"name": r["name"], "reason": r["reason"]} for r in outside],
+        "traces_validated_against_impl": validated,
+        "solver_cpu_s": round(sum(r.get("secs", 0) for r in ok), 1),
+        "tool_build_s": round(build_s, 1), "machinery_faults": faults,
+        "bounds": f"see assumptions; per-query solver cap {tp['query_ms']} ms; generated programs: "
+                  f"{n} (seed {args.seed}) + plumbing family",
+    }
+    common.write_evidence("C05", tier, args.seed, "translation_validation", cov, ASSUMPTIONS_A,
+                          time.time() - t0, len(violations))
+    print(f"C05: functions={len(ok)} variants={len(variants)} outside={len(outside)} "
+          f"pairs={cov['disagreements_checked']} discharged={cov['queries_discharged']} "
+          f"undecided={len(undec)} validated_traces={validated} faults={len(faults)} "
+          f"wall={time.time() - t0:.0f}s")
+    for nm, rpath in violations:
+        print(f"VIOLATION property=C05 replay={rpath}")
+    if violations:
+        return 1
+    if errors or faults:
+        for fl in faults[:30]:
+            sys.stderr.write("FAULT " + fl + "\n")
+        return 2
+    return 0
 
 
 def run_c06(args):
@@ -411,8 +600,11 @@ def main():
     ap.add_argument("--families", nargs="*")
     ap.add_argument("--seed", type=int, default=int(os.environ.get("VERIF_SEED", "0")))
     args = ap.parse_args()
-    fn = {"C02": run_c02, "C03": run_c03, "C04": run_c04, "C06": run_c06,
-          "C17": run_c17}.get(args.prop)
+    if args.prop == "C07":
+        import c07
+        return c07.main(args)
+    fn = {"C01": run_c01, "C02": run_c02, "C03": run_c03, "C04": run_c04, "C05": run_c05,
+          "C06": run_c06, "C17": run_c17}.get(args.prop)
     if fn is None:
         print("unknown property", args.prop)
         return 2
